@@ -210,6 +210,35 @@ FAMILIES = {
         },
         'quick_mutations': ['reg', 'tmax', 'vunit'],
     },
+    # module properties (group / visibility / pollinterval) overridden by bare values at two levels of a three-level hierarchy,
+    # with siblings of the intermediate and of the leaf class; bare-value override of the *parameter* pollinterval likewise
+    'props': {
+        'prelude': [],
+        'classes': {
+            'A': {'bases': ['Module'], 'body': {
+                'f': ['P', {'description': 'f', 'datatype': F10, 'readonly': False, 'default': 1}],
+            }},
+            'A1': {'bases': ['A'], 'body': {'group': ['V', 'service'], 'visibility': ['V', 'advanced'], 'pollinterval': ['V', 2.0]}},
+            'A2': {'bases': ['A1'], 'body': {'group': ['V', 'factory'], 'visibility': ['V', 'expert'], 'pollinterval': ['V', 3.0]}},
+            'A3': {'bases': ['A1'], 'body': {'f': ['V', 2.0]}},
+            'A4': {'bases': ['A'], 'body': {'group': ['V', 'other']}},
+            'R1': {'bases': ['Readable'], 'body': {'pollinterval': ['V', 2.0], 'visibility': ['V', 'advanced']}},
+            'R2': {'bases': ['R1'], 'body': {'pollinterval': ['V', 3.0], 'visibility': ['V', 'expert'], 'group': ['V', 'deep']}},
+        },
+        'instantiable': ['A', 'A1', 'A2', 'A3', 'A4', 'R1', 'R2'],
+        'configs': [
+            {},
+            {'group': 'cfg', 'visibility': 'user'},
+            {'pollinterval': 4.0, 'f': {'max': 5}},
+        ],
+        'quick_configs': [0, 1],
+        'mutations': {
+            'fmax': {'needs': ['f'], 'op': ['setprop', 'f', [], 'max', 4.0]},
+            'assign': {'needs': ['f'], 'op': ['assign', 'f', 0.5]},
+            'pimax': {'needs': ['pollinterval'], 'op': ['setprop', 'pollinterval', [], 'max', 60.0]},
+        },
+        'quick_mutations': ['fmax', 'pimax'],
+    },
     # main unit, status enum extension, Limit parameters (check_ functions are attached to the defining class)
     'units': {
         'prelude': [],
@@ -469,6 +498,8 @@ class World:
         desc = safe(self.node.describe)
         res['describe'] = desc['modules'].get(inst['name']) if isinstance(desc, dict) else desc
         res['modprops'] = safe(lambda: json.loads(json.dumps(obj.exportProperties(), default=repr)))
+        # all module properties, also those which are not exported (pollinterval of a plain Module, ...)
+        res['allprops'] = [[pn, safe(lambda pn=pn: repr(getattr(obj, pn)))] for pn in type(obj).propertyDict]
         table = []
         valid = {}
         for pname, pobj in obj.parameters.items():
@@ -632,7 +663,8 @@ def classify_error(text):
 
 
 def canon(obs):
-    return re.sub(r'inst\d+', 'instN', json.dumps(obs, sort_keys=False, default=repr))
+    text = re.sub(r'inst\d+', 'instN', json.dumps(obs, sort_keys=False, default=repr))
+    return re.sub(r'0x[0-9a-f]{6,}', '0xN', text)
 
 
 # ---------------------------------------------------------------------------------------------------------------
@@ -1107,7 +1139,7 @@ def run(ctx):
                 'requests executed; traces = entity observations compared with the reference' % (MAX_INSTANCES, json.dumps(menus)))
     ctx.coverage.update(bound_completed='; '.join(f'{f}: ' + ', '.join(f'{v} menus to {d} steps' for v, d, _m in pl[f]) for f in FAMILIES),
                         families={f: {'classes': list(FAMILIES[f]['classes']), 'prelude': FAMILIES[f]['prelude']} for f in FAMILIES})
-    ctx.assume('class menus, configurations and mutations outside the four families are not covered; classes of different families '
+    ctx.assume('class menus, configurations and mutations outside the five families are not covered; classes of different families '
                'are never combined in one program',
                'prelude classes of the mixin family are defined in a fixed order before the first step',
                'the reference ("alone") build runs in a child forked from a process that imported frappy but never defined a menu class')
